@@ -333,6 +333,11 @@ class QvmCode(BaseCode):
             ):
                 arg, = prev1.args
 
+                # The value the push instruction really pushes (a
+                # SINGLE operand is stored with SINGLE precision)
+                prev1_type = expr.Type.from_type_char(prev1.type_char)
+                arg = prev1_type.coerce(arg)
+
                 # Convert the argument to the dest type
                 cur_type = expr.Type.from_type_char(cur.type_char)
                 if cur_type.is_integral and \
